@@ -8,7 +8,7 @@ correspondence  random histories (<= 6 operations: evaluate pdf/cdf/icdf/margina
                 getters (2-D, transformed) and a 3-D model; before and after EVERY operation all models, all caller
                 arrays / lists / dicts, numpy's global random state and matplotlib's figure registry are deep-
                 snapshotted; the observed write set (changed paths mapped to cells) must lie inside the model's
-                footprint `wset` evaluated by vm_compute; where `same_result_guaranteed` says so, a repeated
+                footprint `wset` evaluated by vm_compute; where `same_result_if_reseeded` says so, a repeated
                 deterministic operation must return bit-identical results.
 search          the same snapshots are the property oracle: a model cell changed by anything but a fit of that model,
                 a caller's array changed, the template changed by fitting, different results of a repeated
@@ -30,7 +30,7 @@ import vlib
 warnings.simplefilter("ignore")
 
 ROLES = ["data0", "data1", "points", "probs", "sample", "limits", "deltas", "semantics", "fit_desc",
-         "edge_points", "edge_probs", "edge_vec", "dc", "levels", "par_rename", "steps", "boundary"]
+         "edge_points", "edge_probs", "edge_vec", "dc", "levels", "par_rename", "steps", "hdc_limits", "boundary"]
 NROLES = len(ROLES)
 
 
@@ -436,7 +436,7 @@ def family_and_utility_sweep(ctx):
 # python entry -> (Coq entry class, needs)   The Coq class fixes the footprint.
 ENTRY_CLASS = {
     "marginal_cdf_dep": "MarginalCdf", "dist0_pdf": "DistPdf", "dist0_cdf": "DistCdf", "dist0_icdf": "DistIcdf",
-    "cdf_boundary": "Cdf", "pdf_boundary": "Pdf",
+    "cdf_boundary": "Cdf", "pdf_boundary": "Pdf", "direct_sampling_mc": "AndC",
     "pdf": "Pdf", "cdf": "Cdf", "marginal_pdf": "MarginalPdf", "marginal_cdf0": "MarginalCdf", "marginal_icdf0": "MarginalPdf",
     "marginal_icdf_seeded": "MarginalIcdfSeeded", "iform_seeded": "IFORMSeeded", "conditional_cdf_mc": "ConditionalCdf",
     "conditional_icdf_mc": "ConditionalIcdf", "conditional_sample": "ConditionalSample", "dep_call": "DepCall",
@@ -449,14 +449,17 @@ ENTRY_CLASS = {
 }
 EDGE_OK = {"dep_call", "pdf", "marginal_pdf", "marginal_cdf0", "marginal_icdf0", "conditional_cdf", "conditional_icdf", "dist_pdf", "dist_cdf",
            "dist_icdf", "dist0_pdf", "dist0_cdf", "dist0_icdf", "empirical_cdf_sample"}
-GHM2 = ["cdf_boundary", "pdf_boundary", "marginal_icdf_seeded", "conditional_sample", "dep_call", "dist0_pdf", "dist0_cdf", "dist0_icdf", "draw_sample_seeded", "dist_sample_seeded", "pdf", "marginal_pdf", "marginal_cdf0", "marginal_icdf0", "marginal_icdf_mc", "conditional_cdf", "conditional_icdf",
+GHM2 = ["direct_sampling_mc", "cdf_boundary", "pdf_boundary", "marginal_icdf_seeded", "conditional_sample", "dep_call", "dist0_pdf", "dist0_cdf", "dist0_icdf", "draw_sample_seeded", "dist_sample_seeded", "pdf", "marginal_pdf", "marginal_cdf0", "marginal_icdf0", "marginal_icdf_mc", "conditional_cdf", "conditional_icdf",
         "draw_sample_seeded", "draw_sample", "dist_pdf", "dist_cdf", "dist_icdf", "dist_sample_seeded", "iform", "isorm", "hdc",
         "hdc_default", "direct_sampling", "and", "or", "plot_marginal_quantiles", "plot_dependence_functions", "plot_histograms",
         "plot_isodensity"]
 GHM3 = ["pdf_boundary", "marginal_icdf_seeded", "conditional_sample", "dep_call", "dist0_pdf", "dist0_cdf", "dist0_icdf", "draw_sample_seeded", "pdf", "marginal_cdf0", "draw_sample_seeded", "draw_sample", "dist_pdf", "dist_cdf", "dist_icdf", "dist_sample_seeded",
         "iform", "isorm", "hdc", "plot_dependence_functions"]
 TRANS = ["draw_sample_seeded", "marginal_icdf_seeded", "conditional_sample", "dep_call", "pdf", "draw_sample", "empirical_cdf_sample", "direct_sampling", "and", "or"]
-CONTOURS = {"iform", "iform_seeded", "isorm", "hdc", "hdc_default", "direct_sampling", "and", "or"}
+# operations that sample WITHOUT a seed: they must draw from numpy's global generator (so that np.random.seed makes them
+# reproducible) and therefore advance it
+MUST_ADVANCE = {"draw_sample", "marginal_icdf_mc", "and", "or", "hdc_default", "plot_marginal_quantiles", "direct_sampling_mc"}
+CONTOURS = {"direct_sampling_mc", "iform", "iform_seeded", "isorm", "hdc", "hdc_default", "direct_sampling", "and", "or"}
 SLOW = {"cdf": 3.0, "empirical_cdf_cached": 1.0, "hdc_default": 1.0}
 
 
@@ -537,6 +540,11 @@ class World:
                             ("par_rename", {"mu": "$\\mu$", "alpha": "$\\alpha$"}),
                             ("steps", [float(np.quantile(d0[:, 0], q)) for q in (0.3, 0.5, 0.7)]),
                             # points with a coordinate exactly ON the lower boundary of the support / integration range
+                            # HighestDensityContour keeps the caller's limits object: pairs as lists, an ndarray with reversed
+                            # (max, min) pairs, tuples with one reversed pair -- all accepted (min/max are taken), none may be rewritten
+                            ("hdc_limits", [[list(map(float, t)) for t in LIMITS[r["kind"]]],
+                                            np.array([[t[1], t[0]] for t in LIMITS[r["kind"]]], dtype=float),
+                                            [tuple(t) if i else (t[1], t[0]) for i, t in enumerate(LIMITS[r["kind"]])]][(seed + k) % 3]),
                             ("boundary", np.vstack([np.where(np.arange(r["n_dim"]) == i, 0.0, d0[8]) for i in range(r["n_dim"])]
                                                    + [np.zeros(r["n_dim"])]).astype(float))):
                 assert ROLES[len(r["arr"])] == role
@@ -739,9 +747,11 @@ def execute(world, op, results):
     if e == "isorm":
         return v.ISORMContour(m, alpha, n_points=op.get("n_points", 24))
     if e == "hdc":
-        return v.HighestDensityContour(m, alpha, limits=world.arrays[A["limits"]], deltas=world.arrays[A["deltas"]])
+        return v.HighestDensityContour(m, alpha, limits=world.arrays[A["hdc_limits"]], deltas=world.arrays[A["deltas"]])
     if e == "hdc_default":
         return v.HighestDensityContour(m, alpha)
+    if e == "direct_sampling_mc":       # no sample supplied: the contour draws its own, unseeded
+        return v.DirectSamplingContour(m, alpha, n=2000, deg_step=op.get("deg_step", 10))
     if e == "direct_sampling":
         return v.DirectSamplingContour(m, alpha, sample=S, deg_step=op.get("deg_step", 10))
     if e == "and":
@@ -771,7 +781,7 @@ def gen_history(rng, names, quick, maxlen=6):
         return arr_no(k, role)
     while len(ops) < L:
         u = rng.random()
-        dets = [o for o in ops if o["op"] in ("eval", "post") and o["det"]]
+        dets = [o for o in ops if o["op"] in ("eval", "post") and (o["det"] or o.get("entry") in MUST_ADVANCE)]
         if len(ops) == L - 1 and dets and rng.random() < 0.7:
             u = 0.0                                 # close the history with a repetition
         conts = [o for o in ops if o["op"] == "eval" and o["entry"] in CONTOURS and o["dim2"]]
@@ -830,7 +840,7 @@ def op_args(world, op):
     if e in ("direct_sampling", "and", "or", "plot_marginal_quantiles", "plot_isodensity"):
         use = {"sample"}
     if e == "hdc":
-        use = {"limits", "deltas"}
+        use = {"hdc_limits", "deltas"}
     if e == "plot_histograms":
         use = {world.recs[op["k"]]["fitted_with"]}
     if e in ("dist0_pdf", "dist0_cdf", "dep_call", "conditional_sample", "conditional_cdf_mc"):
@@ -897,7 +907,12 @@ def run_history(names, ops, seed, keep_results=False):
             if op["op"] == "post" and op["c"] not in results:
                 steps.append({"skipped": True, "changed": [], "cells": set(), "err": None})
                 continue
-            np.random.seed((world.seed * 31 + op["id"] * 7) % (2 ** 31))
+            import zlib
+            if op.get("entry") in MUST_ADVANCE:
+                # the caller's np.random.seed(s): the same s for every occurrence of the same unseeded operation
+                np.random.seed((world.seed * 31 + zlib.crc32(("%s/%d" % (op["entry"], op["k"])).encode())) % (2 ** 31))
+            else:
+                np.random.seed((world.seed * 31 + op["id"] * 7) % (2 ** 31))
             backup = interp_backup()
             before = world.snapshot()
             err = None
@@ -924,6 +939,9 @@ def run_history(names, ops, seed, keep_results=False):
             for p in changed:
                 cells.setdefault(world.cell_of(p), []).append(p)
             extra = None
+            if op.get("entry") in MUST_ADVANCE and err is None and before["rng"] == after["rng"]:
+                extra = ("sampled without a seed but left numpy's global random state untouched: it does not draw from the global "
+                         "generator, np.random.seed(s) cannot make it reproducible")
             if op["op"] == "post" and op["post"] == "SaveContour" and isinstance(res, bytes):
                 # read-back: header + one line per contour point, whatever the file held before
                 rows = len(np.asarray(results[op["c"]].coordinates))
@@ -952,7 +970,10 @@ def classify(names, ops, obs, wsets):
             continue
         allowed = set(wsets[pos]) if wsets is not None else None
         if st.get("extra"):
-            viol.append(({"clause": "export", "site": "SaveContour"}, "post(SaveContour) on model %d (%s): %s" % (op["k"], names[op["k"]], st["extra"])))
+            if op["op"] == "post":
+                viol.append(({"clause": "export", "site": "SaveContour"}, "post(SaveContour) on model %d (%s): %s" % (op["k"], names[op["k"]], st["extra"])))
+            else:
+                viol.append(({"clause": "global-seed", "site": op["entry"]}, "eval(%s) on model %d (%s) %s" % (op["entry"], op["k"], names[op["k"]], st["extra"])))
         for cell, paths in st["cells"].items():
             where = "%s(%s) on model %d (%s)" % (op["op"], op.get("entry") or op.get("post") or "", op["k"], names[op["k"]])
             if isinstance(cell, tuple) and cell[0] == "Arr":
@@ -990,7 +1011,7 @@ def classify(names, ops, obs, wsets):
 def repeat_pairs(ops):
     out = []
     for j, b in enumerate(ops):
-        if b.get("det"):
+        if b.get("det") or b.get("entry") in MUST_ADVANCE:
             for i in range(j):
                 if same_op(ops[i], b):
                     out.append((i, j))
@@ -1101,6 +1122,15 @@ def run(ctx):
         ([gG, "custom3d"], [dict(ev, entry="cdf_boundary"), dict(ev, entry="pdf_boundary", k=1, dim2=False), dict(ev, entry="draw_sample_seeded"),
                             dict(ev, entry="cdf_boundary"), dict(ev, entry="pdf_boundary"), dict(ev, entry="cdf_boundary")]),
     ]
+    mc = dict(ev, det=False)
+    cover += [
+        # np.random.seed(s); unseeded sampling; np.random.seed(s); the same again -> identical results, generator advanced
+        ([gG, gG], [dict(mc, entry="draw_sample"), dict(mc, entry="marginal_icdf_mc"), dict(mc, entry="direct_sampling_mc"), dict(fit1),
+                    dict(mc, entry="draw_sample"), dict(mc, entry="direct_sampling_mc")]),
+        # HDC with caller-owned limits in all three container shapes, computed twice
+        ([gG, gG, gG], [dict(ev, entry="hdc"), dict(ev, entry="hdc", k=1), dict(ev, entry="hdc", k=2), dict(ev, entry="hdc"),
+                        dict(ev, entry="hdc", k=1), dict(ev, entry="hdc", k=2)]),
+    ]
     po = {"op": "post", "k": 0, "det": True, "swap": False}
     cover += [
         # contour pipelines with caller-owned arguments: design conditions (list of abscissae), plot (sample, semantics,
@@ -1177,7 +1207,7 @@ def run(ctx):
             coq_ops = "[" + "; ".join(st.get("coq", "(Eval 0 Pdf [])") for st in obs["steps"]) + "]"
             prs = repeat_pairs(hh["ops"])
             body += "Definition shape%d (k : nat) : list (option nat) := nth k %s [].\n" % (n, shp)
-            body += "Eval vm_compute in (wsets shape%d 0 %s, map (fun ij => same_result_guaranteed shape%d %s (fst ij) (snd ij)) [%s]).\n" % (
+            body += "Eval vm_compute in (wsets shape%d 0 %s, map (fun ij => same_result_if_reseeded shape%d %s (fst ij) (snd ij)) [%s]).\n" % (
                 n, coq_ops, n, coq_ops, "; ".join("(%d, %d)" % p for p in prs))
         items.append(("hist_%d" % (s // per), body))
     outs = ctx.coq_eval_many(items, jobs=12)
@@ -1210,8 +1240,9 @@ def run(ctx):
                 nguar += 1
                 if a is not None and b is not None and a != b:
                     viol.append(({"clause": "repeatability", "site": hh["ops"][i].get("entry") or hh["ops"][i].get("post")},
-                                 "%s on model %d (%s) returned different results at steps %d and %d although nothing it reads was written in between"
-                                 % (hh["ops"][i].get("entry") or hh["ops"][i].get("post"), hh["ops"][i]["k"], hh["models"][hh["ops"][i]["k"]], i, j)))
+                                 "%s on model %d (%s) returned different results at steps %d and %d although nothing it reads was written in between%s"
+                                 % (hh["ops"][i].get("entry") or hh["ops"][i].get("post"), hh["ops"][i]["k"], hh["models"][hh["ops"][i]["k"]], i, j,
+                                    " (np.random.seed(s) with the same s before both)" if hh["ops"][i].get("entry") in MUST_ADVANCE else "")))
         if viol or mism:
             suspects.append((hh, viol))
     ctx.notes["correspondence"] = {"histories": len(hist), "observed_written_cells": ncells, "outside_model_write_set": nmis,
